@@ -3,6 +3,7 @@ import SMV.Props.C07Decl
 import SMV.Props.C13
 import SMV.Props.C15
 import SMV.Props.RefineVeto
+import SMV.Props.RefineData
 namespace SMV.Witness
 open SMV
 
@@ -157,5 +158,28 @@ example : let o := step envRefuse exCode (some (partsOf exM)) afterNew (.handle 
   exact ⟨_, rfl⟩
 example : (step envAllow exCode (some (partsOf exM)) afterNew (.handle pascalStop none)).res =
     .errDyn (.invalidTransition (.name A) (.name stop)) := by decide
+
+/-! the cell of the data state `A` -/
+
+def specA : StorageSpec := ⟨A, storageFieldIdent A, ["u32"]⟩
+def accA : DynAcc :=
+  { readName := toSnake A ++ Name.lit "_data", writeName := toSnake A ++ Name.lit "_data_mut",
+    setName := Name.lit "set_" ++ toSnake A ++ Name.lit "_data", ty := ["u32"], field := specA.field,
+    stateStr := A, reachable := [A] }
+
+example : specA ∈ exM.storage := by decide
+/-- the accessor the generator emits for `A` is `accA` (C11.leaf_acc), so `cell_refines` applies to it -/
+example : genDynAcc exM specA = some accA :=
+  C11.leaf_acc exM specA (by decide) (by decide)
+
+/-- the abstract cell along a history: set, read, overwrite in place, read, leave `A` (the cell is gone),
+    come back through `stop` from `Dd`: `Default` again -/
+example : (RefineData.srun exM A (A, some 0)
+    [.set 5, .read, .write 7, .read, .handle envAllow (fun n => n == g1 || n == g2) exEvents[0] (some 1), .read,
+     .set 9, .handle envAllow (fun n => n == g1 || n == g2) exEvents[1] none, .read]).2 =
+    [.stored true, .val (some 5), .unit, .val (some 7), .fired true, .val none, .stored false, .fired true, .val (some 0)] := by
+  decide
+example : RefineData.WriteFree envAllow := by
+  intro h c; unfold envAllow; cases c.kind <;> rfl
 
 end SMV.Witness
